@@ -25,7 +25,7 @@ ASSUMPTIONS = [
 NT = 4
 H = 0.05
 TOL = 1e-11
-KINDS = ["su_unc", "su_coupled", "su_cdf", "cdf_class", "se2_unc", "se2_coupled", "su_cplx_diag", "su_cplx_coupled"]
+KINDS = ["su_unc", "su_coupled", "su_cdf", "cdf_class", "se2_unc", "se2_coupled", "su_cplx_diag", "su_cplx_coupled", "su_nonsym", "se2_nonsym"]
 PARTS = ["el", "rb+el", "el+rf", "rb+el+rf", "rf", "rb"]
 STARTS = ["zero", "d0v0", "static"]
 
@@ -41,7 +41,7 @@ def make_system(kind, part, mass):
     nel = 0 if part in ("rf", "rb") else 2
     nrf = {"el": 0, "rb+el": 0, "el+rf": 1, "rb+el+rf": 1, "rf": 2, "rb": 0}[part]
     n = nrb + nel + nrf
-    coupled = kind in ("su_coupled", "se2_coupled", "su_cplx_coupled")
+    coupled = kind in ("su_coupled", "se2_coupled", "su_cplx_coupled", "su_nonsym", "se2_nonsym")
     cdf = kind in ("su_cdf", "cdf_class")
     md = np.array([2.0, 1.7][:nrb] + [1.0, 1.5][:nel] + [1.0, 1.0][:nrf])
     kd = np.array([0.0, 0.0][:nrb] + [30.0, 80.0][:nel] + [1.0e4, 3.0e4][:nrf])
@@ -71,6 +71,12 @@ def make_system(kind, part, mass):
                 k[i, j] = k[j, i] = 2.0e3
             if nrb == 2:
                 m[0, 1] = m[1, 0] = 0.2
+            if kind.endswith("nonsym") and nel:
+                # full NON-symmetric mass, damping and stiffness in the elastic block (legal for these solvers)
+                i, j = el
+                m[i, j], m[j, i] = 0.1, 0.3
+                k[i, j], k[j, i] = -5.0, -9.0
+                b[i, j], b[j, i] = 0.1, 0.02
     if kind.startswith("su_cplx"):
         # complex-valued system (structural damping K(1 + i*eta)): the complex-mode path with diagonal or full matrices
         k = k * (1 + 0.04j)
@@ -87,7 +93,7 @@ def make_solver(cfg):
     s = make_system(cfg["kind"], cfg["part"], cfg["mass"])
     kw = dict(rf=s["rf"], order=cfg["order"])
     kind = cfg["kind"]
-    if kind in ("su_unc", "su_coupled", "su_cplx_diag", "su_cplx_coupled"):
+    if kind in ("su_unc", "su_coupled", "su_cplx_diag", "su_cplx_coupled", "su_nonsym"):
         ts = ode.SolveUnc(s["m"], s["b"], s["k"], H, **kw)
     elif kind == "su_cdf":
         ts = ode.SolveUnc(s["m"], s["b"], s["k"], H, cd_as_force=True, **kw)
@@ -185,6 +191,51 @@ class BufferedWorld(World):
             self.gen.send((-1, self.gbuf))
             self.gbuf[:] = 555.0
             self.model[:, self.cur] += self.gs[name]
+
+
+class IntF0World(World):
+    """the initial force handed to generator() as an integer-typed array (e.g. np.zeros(n, int)); later sends are floats"""
+
+    def __init__(self, cfg, form):
+        self.cfg = cfg
+        self.ts, self.sys = make_solver(cfg)
+        n = self.sys["n"]
+        self.F0, self.fs, self.gs, d0, v0 = vectors(n)
+        self.ic = {"zero": dict(), "d0v0": dict(d0=d0, v0=v0), "static": dict(static_ic=True)}[cfg["start"]]
+        f0 = {"int64": self.F0.astype(np.int64), "int32": self.F0.astype(np.int32), "list": [float(x) for x in self.F0]}[form]
+        self.gen, self.d, self.v = self.ts.generator(NT, f0, **self.ic)
+        self.model = np.zeros((n, NT))
+        self.model[:, 0] = self.F0
+        self.cur = 0
+        self.msgs = []
+
+
+def check_f0_forms(cfg):
+    """every history of REUSE_HISTS started from an integer-typed (or list) F0 holding the same values"""
+    msgs = []
+    for form in ("int64", "int32", "list"):
+        for hi, hist in enumerate(REUSE_HISTS):
+            a = World(cfg)
+            try:
+                b = IntF0World(cfg, form)
+            except Exception as e:  # noqa
+                if form == "list":
+                    break  # F0 is documented as an ndarray: a list is outside the documented domain if refused loudly
+                msgs.append(((form, hi), "generator(nt, F0) raised %r for F0 given as %s" % (e, form)))
+                break
+            try:
+                for step, ev in enumerate(hist):
+                    a.apply(ev)
+                    b.apply(ev)
+                    c = a.cur
+                    if not (np.array_equal(a.d[:, : c + 1], b.d[:, : c + 1]) and np.array_equal(a.v[:, : c + 1], b.v[:, : c + 1]) and np.array_equal(a.ts._force, b.ts._force)
+                            and b.ts._force.dtype == a.ts._force.dtype):
+                        msgs.append(((form, hi), "history #%d, event %d %s: starting the generator from F0 given as %s gives a different state / force history than the same values as float64"
+                                     % (hi, step + 1, list(ev), form)))
+                        break
+            except Exception as e:  # noqa
+                msgs.append(((form, hi), "history #%d with F0 given as %s raised %r" % (hi, form, e)))
+    return msgs
 
 
 def check_buffer(cfg):
@@ -385,6 +436,8 @@ def shape_of(hist):
 def configs():
     out = []
     for kind, order, part, mass, start in itertools.product(KINDS, (0, 1), PARTS, ("none", "given"), STARTS):
+        if kind.endswith("nonsym") and (part not in ("el", "rb+el+rf") or mass == "none"):
+            continue
         out.append(dict(kind=kind, order=order, part=part, mass=mass, start=start))
     return out
 
@@ -426,6 +479,9 @@ def run_shard(sh):
     for hi, m in check_buffer(cfg):
         res.viol({"cfg": cfg, "buffer": hi}, m, kind="buffer")
     res.ev("%s/reused-force-buffer" % cfg["kind"], n=0)
+    for key, m in check_f0_forms(cfg):
+        res.viol({"cfg": cfg, "f0form": list(key)}, m, kind="f0form")
+    res.ev("%s/F0-forms" % cfg["kind"], n=0)
     if cfg["part"] not in ("rf", "rb"):
         for merge, m in check_interleaved(cfg):
             res.viol({"cfg": cfg, "interleaved": merge}, m, kind="interleaved")
@@ -441,6 +497,8 @@ def run_shard(sh):
 def replay(case):
     if "interleaved" in case:
         return [m for merge, m in check_interleaved(case["cfg"]) if merge == case["interleaved"]]
+    if "f0form" in case:
+        return [m for key, m in check_f0_forms(case["cfg"]) if list(key) == list(case["f0form"])]
     if "buffer" in case:
         return [m for hi, m in check_buffer(case["cfg"]) if hi == case["buffer"]]
     if "reuse" in case:
